@@ -272,10 +272,34 @@ class StmtMixin:
         h = self.u_hook('range_for', n, rt, rinit, lv, lt, body, out, ind)
         if h is not None: return
         core = self.skip(rinit)
+        if rt.kind == 'opaque' and lt is not None:
+            # abstract sequence: the container is not modelled; iteration = indexed access through two stubs
+            out.append(ind + '{'); i2 = ind + '  '
+            if self.is_lv(core):
+                rng = self.expr(core); self.flush(out, i2)
+            else:
+                rng = self.tmp('range'); e = self.expr(rinit); self.flush(out, i2)
+                out.append(i2 + '%s %s = %s;' % (rt.c, rng, e))
+            ix = self.tmp('i'); nn = self.tmp('n'); name = self.local_name(lv)
+            for fn, proto in (('%s_iter_size' % rt.c, 'size_t %s_iter_size(const %s* this_);' % (rt.c, rt.c)),
+                              ('%s_iter_get' % rt.c, '%s %s_iter_get(const %s* this_, size_t index);' % (lt.c, rt.c, rt.c))):
+                self.autostubs.setdefault(fn, proto); self.fninfo.setdefault(fn, {'qname': fn, 'stub': True})
+            out.append(i2 + 'size_t %s; size_t %s = %s_iter_size(%s);' % (ix, nn, rt.c, self.addr(rng)))
+            out.append(i2 + 'for (%s = 0; %s < %s; ++%s)' % (ix, ix, nn, ix))
+            out.append(i2 + self.loop_marker())
+            out.append(i2 + '{'); i3 = i2 + '  '
+            out.append(i3 + '%s %s = %s_iter_get(%s, %s);' % (lt.c, name, rt.c, self.addr(rng), ix))
+            self.vars[lv['id']] = ('val', name)
+            self.rules['range-for:opaque-sequence'] += 1
+            self.range_cleanup.append(None)
+            self.stmt(body, out, i3)
+            self.range_cleanup.pop()
+            out.append(i2 + '}'); out.append(ind + '}')
+            return
         if rt.kind not in ('sv', 'vec', 'uset'):
             raise Unsupported('range-for over %s (%s) at %s' % (rt.c, rt.kind, self.where(n)))
         out.append(ind + '{'); i2 = ind + '  '
-        if core.get('valueCategory') == 'lvalue' or core.get('kind') in ('DeclRefExpr', 'MemberExpr'):
+        if self.is_lv(core):
             if self.has_side_effects(core): raise Unsupported('side effect in range expression')
             rng = self.expr(core); self.flush(out, i2)
         else:
@@ -449,7 +473,9 @@ class StmtMixin:
         for f in r.get('inner', []):
             if f.get('kind') != 'FieldDecl': continue
             t = self.tyq(f['type'])
-            if t.ref: raise Unsupported('reference member %s::%s' % (rc, f['name']))
+            if t.ref:
+                self.rules['reference-member-as-pointer'] += 1
+                lines.append('  %s%s* %s;' % ('const ' if t.const else '', t.c, f['name'])); nf += 1; continue
             lines.append('  %s %s;' % (t.c, f['name'])); nf += 1
         if nf == 0: lines.append('  char empty_;')
         lines.append('} %s;' % rc)
